@@ -29,6 +29,11 @@ type nodeModel struct {
 	snap    pb.Snapshot
 	boot    *pb.Bootstrap
 	term    uint64 // highest term used so far (generator bookkeeping)
+	// after RemoveNodeData nothing that was saved before may ever be reported again (entries at
+	// or below an imported / received snapshot may legitimately linger): purged marks that such a reset
+	// happened, lowest is the lowest entry index saved since (0: none)
+	purged bool
+	lowest uint64
 	// altStates: hard states also acceptable after a power loss (Tan only: a
 	// hard-state update that changes nothing but Commit is deliberately not
 	// fsynced - tan/db.go stateSyncChange, the etcd MustSync rule)
@@ -41,7 +46,8 @@ func newNodeModel() *nodeModel {
 
 func (m *nodeModel) clone() *nodeModel {
 	c := &nodeModel{entries: make(map[uint64]pb.Entry, len(m.entries)),
-		last: m.last, floor: m.floor, state: m.state, snap: m.snap, term: m.term, altStates: m.altStates}
+		last: m.last, floor: m.floor, state: m.state, snap: m.snap, term: m.term, altStates: m.altStates,
+		purged: m.purged, lowest: m.lowest}
 	for k, v := range m.entries {
 		c.entries[k] = v
 	}
@@ -87,6 +93,9 @@ func (m *nodeModel) applyUpdate(ud pb.Update) {
 		}
 	}
 	if n := len(ud.EntriesToSave); n > 0 {
+		if m.lowest == 0 || ud.EntriesToSave[0].Index < m.lowest {
+			m.lowest = ud.EntriesToSave[0].Index
+		}
 		for _, e := range ud.EntriesToSave {
 			m.entries[e.Index] = e
 		}
@@ -323,6 +332,10 @@ func checkNode(db raftio.ILogDB, id nodeID, m *nodeModel, qs []query) *discrepan
 			}
 			if rs.FirstIndex+rs.EntryCount-1 != m.last {
 				return &discrepancy{"ReadRaftState", "wrong-last-index", id, what}
+			}
+			if m.purged && m.lowest > 0 && rs.FirstIndex < m.lowest {
+				return &discrepancy{"ReadRaftState", "entries-from-before-the-removal-reappear", id,
+					fmt.Sprintf("%s; the data of the replica was removed (RemoveNodeData) and the lowest entry saved since is %d", what, m.lowest)}
 			}
 		} else if rs.EntryCount != 0 {
 			return &discrepancy{"ReadRaftState", "entries-past-logical-end", id, what}
